@@ -40,10 +40,16 @@ func genKeyN(max int) *rapid.Generator[[]byte] {
 var pfxBits = []uint16{0x0000, 0x8000, 0xa000, 0xa0a0, 0xa080, 0xffff}
 var pfxLens = []int{0, 1, 3, 4, 8, 9, 12, 16}
 
+var pfxPool = []P{{0xa000, 4}, {0xa000, 8}, {0x0000, 0}}
+
 func genP() *rapid.Generator[P] {
-	return rapid.Custom(func(t *rapid.T) P {
-		return P{Bits: rapid.SampledFrom(pfxBits).Draw(t, "bits"), Len: rapid.SampledFrom(pfxLens).Draw(t, "len")}.norm()
-	})
+	return rapid.OneOf(
+		// a tiny pool so that many objects share one prefix (per-prefix object lists grow)
+		rapid.SampledFrom(pfxPool),
+		rapid.Custom(func(t *rapid.T) P {
+			return P{Bits: rapid.SampledFrom(pfxBits).Draw(t, "bits"), Len: rapid.SampledFrom(pfxLens).Draw(t, "len")}.norm()
+		}),
+	)
 }
 
 func genQuery() *rapid.Generator[*Query] {
@@ -137,7 +143,11 @@ func genCase(t *rapid.T, p Profile) Case {
 	c := Case{MaxTxns: 1}
 	n := rapid.IntRange(1, 3).Draw(t, "ntables")
 	for i := 0; i < n; i++ {
-		c.Tables = append(c.Tables, TableSpec{Mask: rapid.IntRange(0, 15).Draw(t, "mask") << 1})
+		mask := 15
+		if rapid.Bool().Draw(t, "anyMask") {
+			mask = rapid.IntRange(0, 15).Draw(t, "mask")
+		}
+		c.Tables = append(c.Tables, TableSpec{Mask: mask << 1})
 	}
 	if p.TwoTxns && rapid.Bool().Draw(t, "twoTxns") {
 		c.MaxTxns = 2
